@@ -35,6 +35,32 @@ def gcc_syntax_ok(text):
         return True
 
 
+def adjacency_family():
+    """every grammatical adjacency of two operator tokens whose spellings would merge into another token (or a comment) if written without
+    a blank: prefix-prefix, binary-prefix, postfix-binary, cast-prefix, sizeof-prefix, declarator stars, conditional arms"""
+    P = ["-", "+", "&", "*", "~", "!", "++", "--", "sizeof"]
+    B = ["*", "/", "%", "+", "-", "<<", ">>", "<", ">", "<=", ">=", "==", "!=", "&", "^", "|", "&&", "||", "=", "+=", "-=", "*=", "/=", "%=", "<<=", ">>=", "&=", "^=", "|=", ","]
+    out = []
+    for p1 in P:
+        for p2 in P:
+            out.append((2, "%s %s x" % (p1, p2)))
+            out.append((3, "y = %s %s x ;" % (p1, p2)))
+        for p3 in ("-", "+", "&", "--", "++"):
+            out.append((2, "%s %s %s x" % (p1, p3, p3)))
+    for b in B:
+        for p in P:
+            out.append((2, "a %s %s x" % (b, p)))
+        out.append((2, "a ++ %s b" % b)); out.append((2, "a -- %s b" % b))
+        out.append((2, "a ++ %s ++ b" % b)); out.append((2, "a -- %s -- b" % b))
+    for p in P:
+        out.append((2, "( int ) %s x" % p)); out.append((2, "a ? %s b : %s c" % (p, p))); out.append((2, "a [ %s i ]" % p)); out.append((2, "f ( %s x , %s y )" % (p, p)))
+        out.append((0, "int g ( int x ) { return %s %s x ; }" % (p, p)))
+    out += [(0, "int * * p ; int * const * volatile * q ; int ( * * r ) ( void ) ;"), (2, "a / * p"), (2, "a & & b"), (2, "a - - - b"), (2, "a + + + b"), (2, "a - -- b"), (2, "a -- - b"),
+            (2, "a + ++ b"), (2, "a ++ + b"), (2, "a < - b"), (2, "a > - b"), (2, "a . b . c"), (2, "a -> b -> c"), (2, "a . b ++ + c"), (2, "p -> q -- - r"), (2, "* * * p"), (2, "& * & * p"),
+            (2, "1 - - 1"), (2, "1 + + 1"), (2, "1 . 0 + x") , (2, "x = = y"), (2, "sizeof ( int ) - 1"), (2, "- sizeof x"), (2, "! ! x"), (2, "~ ~ x"), (2, "x % : y")]
+    return out
+
+
 def run(chk, only=None):
     chk.coverage["trusted_base"] = pv.TRUSTED_COMMON + [
         "C03_expr_lossless is about the hand-written model coq/C06Model.v of the N-ary expression layer (tied to the parser by C06's correspondence), instantiated with the regenerated operator tables",
@@ -59,6 +85,7 @@ def run(chk, only=None):
     inputs += [(0, "int x; ; int y;"), (0, "char *s = \"a\" \"b\" L\"c\";"), (0, "int f(a, b, c) int a; char b; long c; { return a; }"),
                (0, "struct s { int b : 3 __attribute__((packed)); };"), (2, "__builtin_va_arg(ap, int)"), (0, "void f(void) { x <: 1 :> = 2; <% %> }"),
                (0, "__inline__ __volatile__ int __attribute__((unused)) v;"), (2, "a ? b : c ? d : e = f"), (3, "for (int i = 0; i < 3; ++i) { continue; }")]
+    inputs += adjacency_family()
     modes = [2] if quick else [2, 3]
     if only:
         inputs, modes = only, [2, 3]
@@ -105,7 +132,7 @@ def run(chk, only=None):
     crashes = sum(1 for p in parsed if p == "crash")
     chk.coverage["evaluations"] = len(reqs)
     chk.coverage["distinct_nontrivial"] = len({(meta[i][0], meta[i][1]) for i in idx if parsed[i]["ntok"] > 6})
-    chk.coverage["rule"] = ("the %d snippets of the repository's own tests in their syntax category and %d random concatenations and generated units (grammar-directed programs of gen/cgen.py, ambiguity programs of gen/ambig.py), under disambiguation modes %s; only inputs that parse completely without "
+    chk.coverage["rule"] = ("the %d snippets of the repository's own tests in their syntax category and %d random concatenations and generated units (grammar-directed programs of gen/cgen.py, ambiguity programs of gen/ambig.py, and the family of every grammatical adjacency of two operator tokens that would merge if written without a blank), under disambiguation modes %s; only inputs that parse completely without "
                             "diagnostics count (%d); for each: emitted token indices == 1..n, lex(unparse) == lex(source) on (kind, spelling), node kinds of the re-parse identical. "
                             "non-trivial = more than five tokens" % (len(snippets), len(inputs) - len(snippets) - 9, modes, n_clean))
     chk.coverage["samples"] = [inputs[7][1], inputs[len(snippets) + 1][1][:160]] if not only else [inputs[0][1][:200]]
